@@ -47,10 +47,49 @@ def body_commit_step(c0, c1, c2, target, body, hist):
 def h_commit_step(c0: bytes, c1: bytes, c2: bytes, target: int, body: bytes, hist: int) -> bool:
     """
     pre: len(c0) <= ctx.b.blen and len(c1) <= ctx.b.blen and len(c2) <= ctx.b.blen and len(body) <= ctx.b.blen
-    pre: 0 <= target < ctx.b.n + 3 and 0 <= hist <= 2
+    pre: 0 <= target < ctx.b.n + 4 and 0 <= hist <= 2
     post: _
     """
     return run(body_commit_step, c0, c1, c2, target, body, hist)
+
+
+def body_web_reads(c0, c1, which, typed):
+    """Requests that change nothing add no commit - also on a collection without a stored type, whose type the
+    web layer has to guess on every request."""
+    from xv.env import mweb
+    from xv.oracles import storespec as SP
+    kind = ctx.PART
+    S = _store.pre_state([c0, c1, b""], 2)
+    if not SP.invariant(S):
+        return (True, "pre-invalid")
+    mweb.fresh_world({}, {})
+    col = "/user/calendars/plain"
+    mstore.install_state(kind, mweb.ROOT + col, S)
+    if typed:
+        mweb.set_type(mweb.ROOT + col, "calendar")
+    app = mweb.make_app()
+    before = mstore.head_commits(mweb.ROOT + col)
+    if which == 0:
+        mweb.call(app, "PROPFIND", col + "/", headers=[("Depth", "1")], xml=mweb.propfind_body("{DAV:}getetag", "{DAV:}resourcetype"))
+    elif which == 1:
+        mweb.call(app, "GET", col + "/a.ics")
+    else:
+        mweb.call(app, "PROPFIND", "/user/calendars/", headers=[("Depth", "1")], xml=mweb.propfind_body("{DAV:}resourcetype"))
+    after = mstore.head_commits(mweb.ROOT + col)
+    ok = after == before and not mstore.dangling(mweb.ROOT + col)
+    # ... and the next change adds exactly one
+    r = mweb.call(app, "PUT", col + "/z.vcf", body=b"v9", content_type="text/vcard")
+    if r.status_class == "2xx":
+        ok = ok and len(mstore.head_commits(mweb.ROOT + col)) == len(before) + 1
+    return (ok, ("typed" if typed else "untyped") + ":%d" % which)
+
+
+def h_web_reads(c0: bytes, c1: bytes, which: int, typed: bool) -> bool:
+    """
+    pre: len(c0) <= 2 and len(c1) <= 2 and 0 <= which <= 2
+    post: _
+    """
+    return run(body_web_reads, c0, c1, which, typed)
 
 
 HARNESSES = [
@@ -61,4 +100,10 @@ HARNESSES = [
             budget={"quick": 60, "thorough": 420},
             describe="one commit iff the state changed; parent = old head; tree = live members; wt = index = HEAD",
             encodes=_store.STEP_ENCODES),
+    Harness("web_reads", h_web_reads, body_web_reads, classes=[("untyped:0", "tree"), ("typed:1", "bare")],
+            parts={"quick": ["tree", "bare"]}, budget={"quick": 75, "thorough": 300},
+            describe="PROPFIND / GET through the real web layer on a typed or untyped collection add no commit; the next "
+                     "PUT adds exactly one; part = back end",
+            encodes=["xandikos.web.XandikosBackend.get_resource", "xandikos.store.git.GitStore.get_type",
+                     "xandikos.store.Store.get_type", "xandikos.webdav.PropfindMethod.handle", "xandikos.webdav._do_get"]),
 ]
